@@ -412,7 +412,10 @@ def _build_constraint(c, ps, h):
     elif k in ("TaskStartAfter", "TaskEndBefore"):
         obj = getattr(ps, k)(task=T[c["task"]], value=c["value"], kind=c.get("mode", "lax"), **kw)
     elif k == "TaskPrecedence":
-        obj = ps.TaskPrecedence(task_before=T[c["before"]], task_after=T[c["after"]], offset=c.get("offset", 0), kind=c.get("mode", "lax"), **kw)
+        # an operand is a task id, or (precedence between groups) the id of a task-group constraint
+        before = T[c["before"]] if c["before"] in T else h.constraints[c["before"]]
+        after = T[c["after"]] if c["after"] in T else h.constraints[c["after"]]
+        obj = ps.TaskPrecedence(task_before=before, task_after=after, offset=c.get("offset", 0), kind=c.get("mode", "lax"), **kw)
     elif k in ("TasksStartSynced", "TasksEndSynced", "TasksDontOverlap"):
         obj = getattr(ps, k)(task_1=T[c["t1"]], task_2=T[c["t2"]], **kw)
     elif k == "TasksContiguous":
@@ -562,7 +565,8 @@ def iter_constraints(spec):
 
 
 def constraint_tasks(c):
-    """task ids a (single, non-nested view of a) constraint names."""
+    """task ids a (single, non-nested view of a) constraint names (ids of task groups used as
+    operands of a precedence are listed too: dropping the group must drop the precedence)."""
     out = []
     for key in ("task", "before", "after", "t1", "t2"):
         if key in c and isinstance(c[key], str):
